@@ -477,6 +477,8 @@ func coqVal(v reflect.Value) string {
 		for i := 0; i < t.NumField(); i++ {
 			if skipped(t.Field(i)) {
 				parts = append(parts, fmt.Sprintf("(VSkip %d)", fingerprint(v.Field(i))))
+			} else if protoBytes(t.Field(i)) {
+				parts = append(parts, coqValVarintBytes(v.Field(i)))
 			} else {
 				parts = append(parts, coqVal(v.Field(i)))
 			}
@@ -572,4 +574,29 @@ func f32bits(v reflect.Value) uint32 {
 		return *(*uint32)(unsafe.Pointer(c.UnsafeAddr()))
 	}
 	return math.Float32bits(float32(v.Float()))
+}
+
+// protoBytes: a []byte field (possibly behind pointers) tagged `proto` has no
+// registered codec under that tag and is built like any other slice: packed
+// varints, one per byte.
+func protoBytes(sf reflect.StructField) bool {
+	t := sf.Type
+	for t.Kind() == reflect.Ptr {
+		t = t.Elem()
+	}
+	return t == tBytes && strings.HasSuffix(sf.Tag.Get("plenc"), ",proto")
+}
+
+func coqValVarintBytes(v reflect.Value) string {
+	if v.Kind() == reflect.Ptr {
+		if v.IsNil() {
+			return "(VPtr None)"
+		}
+		return fmt.Sprintf("(VPtr (Some %s))", coqValVarintBytes(v.Elem()))
+	}
+	var parts []string
+	for _, b := range v.Bytes() {
+		parts = append(parts, fmt.Sprintf("VInt %d%%Z", b))
+	}
+	return fmt.Sprintf("(VSlice [%s])", strings.Join(parts, "; "))
 }
